@@ -63,12 +63,13 @@ func resolve(s string) string {
 }
 
 // pairs returns the username/password pairs a client may authenticate with
-// (entries whose user name is empty after placeholder replacement are unusable).
+// (entries whose user name is empty after placeholder replacement are unusable, and so are entries longer than the
+// one-octet length fields of the sub-negotiation can express).
 func (c cfg) pairs() map[string]string {
 	out := map[string]string{}
 	for u, p := range c.Creds {
-		if ru := resolve(u); ru != "" {
-			out[ru] = resolve(p)
+		if ru, rp := resolve(u), resolve(p); ru != "" && len(ru) <= 255 && len(rp) <= 255 {
+			out[ru] = rp
 		}
 	}
 	return out
@@ -131,7 +132,11 @@ func genCfg(t *rapid.T) cfg {
 			c.Commands = append(c.Commands, []string{"", "{env.VERIF_C16_UNSET}"}[rapid.IntRange(0, 1).Draw(t, "emptySpelling")])
 		}
 	}
-	switch rapid.IntRange(0, 8).Draw(t, "credKind") {
+	switch rapid.IntRange(0, 9).Draw(t, "credKind") {
+	case 9:
+		// longer than a client can present (the length fields of the sub-negotiation are one octet): such an entry
+		// can never be used - in particular not with the part of it that fits
+		c.Creds = map[string]string{"frank": strings.Repeat("p", 300), strings.Repeat("u", 260): "pw", "grace": strings.Repeat("q", 255)}
 	case 8:
 		c.Creds = map[string]string{"{env.VERIF_C16_USER}": "{env.VERIF_C16_PASS}"}
 	case 6:
@@ -203,7 +208,9 @@ func genSession(t *rapid.T, c cfg) session {
 			sort.Strings(us)
 			u := us[rapid.IntRange(0, len(us)-1).Draw(t, "nearUser")]
 			ru, rp := resolve(u), resolve(c.Creds[u])
-			if rapid.Bool().Draw(t, "trimmed") {
+			if len(ru) > 255 || len(rp) > 255 {
+				s.User, s.Pass = ru[:min(len(ru), 255)], rp[:min(len(rp), 255)]
+			} else if rapid.Bool().Draw(t, "trimmed") {
 				s.User, s.Pass = strings.TrimSpace(ru), strings.TrimSpace(rp)
 			} else if joined := ru + ":" + rp; strings.Count(joined, ":") > 1 {
 				var cuts []int
